@@ -23,6 +23,7 @@ structure SetPost (s s' : State) (x : Nat) (v : Int) : Prop where
   ver : ∀ i, i ≠ x → (s'.get i).ver = (s.get i).ver
   log : LogOK s → LogOK s'
   logx : LogExt QuietEv s s'
+  logs : ∃ w, s'.log = s.log ++ .set x :: w ∧ ∀ ev ∈ w, WokeEv ev
 
 theorem setSignal_inv {p : Prog} {s : State} (h : InvR p s) {x : Nat} {v0 : Int}
     (hx : p[x]? = some (.sig v0)) (v : Int) {f : Nat} (hf : s.nodes.length ≤ f) :
@@ -112,9 +113,14 @@ theorem setSignal_inv {p : Prog} {s : State} (h : InvR p s) {x : Nat} {v0 : Int}
     rw [← hs1]
     exact ⟨[.set x], rfl, fun ev hev => by
       rw [List.mem_singleton.1 hev]; exact ⟨by intro i; simp, by intro i; simp⟩⟩
-  have hlx : LogExt QuietEv s s' := logx1.trans hr.logx
+  have hlx : LogExt QuietEv s s' := logx1.trans (hr.logx.mono (fun _ h => h.quiet))
+  have hls : ∃ w, s'.log = s.log ++ .set x :: w ∧ ∀ ev ∈ w, WokeEv ev := by
+    obtain ⟨w, hw, gw⟩ := hr.logx
+    refine ⟨w, ?_, gw⟩
+    rw [hw, ← hs1]
+    simp
   refine ⟨?_, ⟨hr.len.trans len1, hr.obs.trans obs1, kE, runE, valx, valE, seenE, runsE, verx, verE,
-    fun hl => hr.log (log1 hl), hlx⟩⟩
+    fun hl => hr.log (log1 hl), hlx, hls⟩⟩
   constructor
   · exact (hr.len.trans len1).trans h.len
   · intro i d hd; rw [kE]; exact h.kind i d hd
@@ -169,6 +175,13 @@ theorem setSignal_inv {p : Prog} {s : State} (h : InvR p s) {x : Nat} {v0 : Int}
     rw [seenE] at he
     exact Nat.le_trans (h.verLe w e he) (verMono e.1)
   · intro w a ha; rw [srcE] at ha; rw [kE]; exact h.srcData w a ha
+
+/-- a signal write logs `set x` followed by wake-ups: glitch-free, the environment changes at `x` only -/
+theorem SetPost.gf (p : Prog) {s s' : State} {x : Nat} {v : Int} (h : SetPost s s' x v) : StateGF p s s' := by
+  obtain ⟨w, hw, gw⟩ := h.logs
+  refine ⟨_, hw, .set (env1 := envOf s') ?_ (GlitchFree.plain (SigEq.refl _ _) w (fun ev hev => (gw ev hev).plain))⟩
+  intro i _ _ hne
+  simp only [envOf, h.val i hne]
 
 /-- the state after the store and before the notifications has the same graph and states -/
 theorem setSignal_pre (s : State) (x : Nat) (v : Int) (i : Nat) :
